@@ -203,8 +203,25 @@ EXTRA = {
     "C07": " Also proved: structured_as_explicit (any two grid kinds of one lattice pass the mesh comparison of C16's model).",
     "C13": " Also proved: the composed whole-file theorem read_vtu (write_vtu d) = expected_read d with a proved decision procedure "
            "for its hypotheses, evaluated on every tied data set; arrays are handed to the writer in varying memory layouts.",
-    "C14": " Fields of eight numeric types (the two sides may differ in type; integer extremes), cf. finding F-C14a.",
+    "C14": " Fields of eight numeric types (the two sides may differ in type; integer extremes), cf. finding F-C14a. --diff runs "
+           "are mixed with mesh options that change nothing for the written files.",
+    "C02": " Also proved: the corner order of a cell is irrelevant to mesh_equal (any per-cell permutation, another start corner, the "
+           "other orientation). Three meshes of 1.6e5 cells per quick run exercise sort keys of limited width (implementation and "
+           "statement-level oracle only).",
+    "C12": " File filters: default filters, dir/* and *ext patterns, and a bracket expression between two plain texts are characterised "
+           "by theorems about the transcribed fnmatch (Model/Glob.v), which is run against PatternFilter on every run.",
+    "C18": " The damaged file may also be the index of a later .pvtu step of a .pvd sequence.",
+    "C19": " Result / reference files under names without a telling extension are replaced by another VTK flavour between comparisons "
+           "in one process (verdict vs the same bytes under properly named paths and in a second process).",
 }
+EXTRA["C08"] += (" Every composition: any sequence of point maps, per-block cell maps and strippings conserves the cells "
+                 "(C08_any_composition_keeps_cells, induction over the sequence); Model.Compose.run is tied to compositions of 1-6 public "
+                 "transformations through index maps observed by marker fields.")
+EXTRA["C16"] += (" Also proved: block order and corner order irrelevant, reflexivity, completeness over the same cell types. One mesh "
+                 "of a pair may be held as the strip_orphan_points view of a mesh with unconnected points among the connected ones.")
+EXTRA["C06"] += " Also proved: the .pvtr ordinate assembly loop restores the global ordinate vector from any split into pieces."
+EXTRA["C11"] += (" Field filters: bracket expressions after a plain prefix ([abc], [!abc], [a-c]) are characterised by theorems about the "
+                 "transcribed fnmatch.")
 
 
 def main():
